@@ -306,16 +306,18 @@ func rw(w bool) string {
 
 // c12ConcurrentEntry: may fn (a method of type n) be run by several goroutines at once? Exported methods of
 // the API types can; unexported helpers reached only from one function inherit that function's answer.
-// c12SingleShot: methods that are not meant to run twice on one receiver (reason recorded in the evidence).
-var c12SingleShot = map[string]string{
-	"listener.Sync": "Sync runs the accept loop once per listener; a duplicate call is rejected before it touches the field",
+// isSingleShot: methods that are not meant to run twice on one receiver: Listener.Sync runs the accept loop once
+// per listener; a duplicate call is rejected before it touches any field (resolved through the public interface).
+func isSingleShot(p *core.Prog, n *types.Named, fn *ssa.Function) bool {
+	li := lookupNamedT(p.TPkg(""), "Listener")
+	return li != nil && core.Implements(n, li) && fn.Name() == "Sync"
 }
 
 func c12ConcurrentEntry(e *ev, n *types.Named, fn *ssa.Function) bool {
 	if fn.Object() == nil {
 		return true
 	}
-	if _, ok := c12SingleShot[n.Obj().Name()+"."+fn.Name()]; ok {
+	if isSingleShot(e.p, n, fn) {
 		return false
 	}
 	if fn.Object().Exported() {
@@ -414,7 +416,7 @@ func isOptionClosureParam(fn *ssa.Function, base ssa.Value) bool {
 func singleShotOwners(p *core.Prog, n *types.Named, owners map[*ssa.Function]bool) *ssa.Function {
 	var root *ssa.Function
 	for o := range owners {
-		if _, ok := c12SingleShot[n.Obj().Name()+"."+o.Name()]; ok && o.Signature.Recv() != nil {
+		if isSingleShot(p, n, o) && o.Signature.Recv() != nil {
 			root = o
 		}
 	}
